@@ -202,6 +202,7 @@ type c19World struct {
 	pools   *c19Pools
 	trace   []string
 	accDown bool
+	lastOdd []byte // a group joined with a validly signed but unusual secret
 }
 
 func c19NewWorld(t *testing.T) *c19World {
@@ -363,6 +364,22 @@ func (w *c19World) action(rt *rapid.T, kind string) (string, proto.Message) {
 		w.pools.groups = append(w.pools.groups, g)
 		w.pools.keys = append(w.pools.keys, g.PublicKey)
 		return "MultiMemberGroupJoin", &protocoltypes.MultiMemberGroupJoin_Request{Group: g}
+	case "join-odd-group":
+		// validly signed by its group key, but with a secret of unusual length (the join only checks the signature)
+		g, sk, _ := NewGroupMultiMember()
+		g.Secret = make([]byte, rapid.SampledFrom([]int{0, 1, 16, 31, 33, 64}).Draw(rt, "secretlen"))
+		_, _ = crand.Read(g.Secret)
+		g.SecretSig, _ = sk.Sign(g.Secret)
+		g.LinkKeySig = nil
+		w.pools.groups = append(w.pools.groups, g)
+		w.pools.keys = append(w.pools.keys, g.PublicKey)
+		w.lastOdd = g.PublicKey
+		return "MultiMemberGroupJoin", &protocoltypes.MultiMemberGroupJoin_Request{Group: g}
+	case "activate-odd":
+		if w.lastOdd != nil {
+			return "ActivateGroup", &protocoltypes.ActivateGroup_Request{GroupPk: w.lastOdd, LocalOnly: true}
+		}
+		return "ActivateGroup", &protocoltypes.ActivateGroup_Request{GroupPk: pickKey(), LocalOnly: true}
 	case "activate":
 		return "ActivateGroup", &protocoltypes.ActivateGroup_Request{GroupPk: pickKey(), LocalOnly: true}
 	case "deactivate":
@@ -411,7 +428,7 @@ func TestVerif_C19_Service(t *testing.T) {
 			var req proto.Message
 			if rapid.IntRange(0, 2).Draw(rt, "mode") == 0 {
 				kind := rapid.SampledFrom([]string{"create-group", "join-group", "activate", "deactivate", "deactivate-account", "deactivate-account", "activate-account",
-					"leave-group", "send-message", "send-metadata", "contact-send", "share-contact"}).Draw(rt, "action")
+					"leave-group", "send-message", "send-metadata", "contact-send", "share-contact", "join-odd-group", "activate-odd", "activate-odd"}).Draw(rt, "action")
 				name, req = w.action(rt, kind)
 				w.trace = append(w.trace, fmt.Sprintf("action %s", kind))
 			} else {
@@ -666,7 +683,7 @@ func TestVerif_C19_RepeatedCalls(t *testing.T) {
 		w := c19NewWorld(t)
 		defer w.cleanup()
 		// something to refer to: a group and a contact request of the session
-		for _, k := range []string{"create-group", "contact-send", "share-contact"} {
+		for _, k := range []string{"create-group", "contact-send", "share-contact", "join-odd-group", "activate-odd"} {
 			n, r := w.action(rt, k)
 			if res := w.call(n, r); !res.errored {
 				w.learn(n, r, res.reply)
